@@ -47,6 +47,25 @@ struct Shared {
     /// an observer the observability callback reads (must fail: we are inside stabilise)
     probe: RefCell<Option<std::rc::Weak<Observer<i64>>>>,
     probe_reads: Cell<u64>,
+    /// C13: user-function invocation counter and injection point
+    ticks: Cell<u64>,
+    panic_at: Cell<Option<u64>>,
+    last_kind: Cell<&'static str>,
+}
+
+#[derive(Debug)]
+struct Injected;
+
+impl Shared {
+    fn tick(&self, kind: &'static str) {
+        let n = self.ticks.get();
+        self.ticks.set(n + 1);
+        self.last_kind.set(kind);
+        if self.panic_at.get() == Some(n) {
+            self.panic_at.set(None);
+            std::panic::panic_any(Injected);
+        }
+    }
 }
 
 pub struct Outcome {
@@ -80,7 +99,8 @@ fn join<T: Value>(incr: &Incr<Incr<T>>) -> Incr<T> {
 pub fn run_history(seed: u64) -> Outcome {
     let mut actions = vec![];
     let mut stats = (false, 0u64, 0u64);
-    let r = catch_unwind(AssertUnwindSafe(|| inner(seed, &mut actions, &mut stats)));
+    let mut rounds = vec![];
+    let r = catch_unwind(AssertUnwindSafe(|| inner(seed, &mut actions, &mut stats, None, &mut rounds)));
     let violation = match r {
         Ok(Ok(())) => None,
         Ok(Err(m)) => Some(m),
@@ -89,7 +109,7 @@ pub fn run_history(seed: u64) -> Outcome {
     Outcome { violation, actions, nontrivial: stats.0, recomputes: stats.1, callbacks: stats.2 }
 }
 
-fn inner(seed: u64, actions: &mut Vec<String>, stats: &mut (bool, u64, u64)) -> Result<(), String> {
+fn inner(seed: u64, actions: &mut Vec<String>, stats: &mut (bool, u64, u64), fault: Option<(u32, u64)>, rounds: &mut Vec<(u32, u64)>) -> Result<(), String> {
     let mut rng = Rng::new(seed);
     let st = IncrState::new();
     let sh: Rc<Shared> = Rc::new(Shared::default());
@@ -99,7 +119,16 @@ fn inner(seed: u64, actions: &mut Vec<String>, stats: &mut (bool, u64, u64)) -> 
 
     // pool
     let xs: Vec<Var<i64>> = (0..3).map(|i| st.var(i as i64 + 1)).collect();
-    let ms: Vec<Incr<i64>> = xs.iter().map(|x| x.map(|v| v * 2)).collect();
+    let ms: Vec<Incr<i64>> = xs
+        .iter()
+        .map(|x| {
+            let sh5 = sh.clone();
+            x.map(move |v| {
+                sh5.tick("map");
+                v * 2
+            })
+        })
+        .collect();
     let cs: Vec<Var<i64>> = (0..2).map(|_| st.var(1i64)).collect();
     let ks: Vec<Var<i64>> = (0..2).map(|j| st.var(100 * (j as i64 + 1))).collect();
     let mut binds: Vec<Incr<i64>> = vec![];
@@ -108,8 +137,13 @@ fn inner(seed: u64, actions: &mut Vec<String>, stats: &mut (bool, u64, u64)) -> 
         let k = ks[j].clone();
         let sh2 = sh.clone();
         let b = cs[j].bind(move |cv| {
+            sh2.tick("bind");
             let cv = *cv;
-            let n = k.map(move |x| x + cv * 10);
+            let sh4 = sh2.clone();
+            let n = k.map(move |x| {
+                sh4.tick("map");
+                x + cv * 10
+            });
             sh2.inner.borrow_mut()[j] = Some(n.clone());
             n
         });
@@ -124,6 +158,7 @@ fn inner(seed: u64, actions: &mut Vec<String>, stats: &mut (bool, u64, u64)) -> 
         {
             let sh = sh.clone();
             move || {
+                sh.tick("expert_recompute");
                 sh.recomputes_this_round.set(sh.recomputes_this_round.get() + 1);
                 sh.e_has_run.set(true);
                 let current = sh.current.borrow();
@@ -153,6 +188,7 @@ fn inner(seed: u64, actions: &mut Vec<String>, stats: &mut (bool, u64, u64)) -> 
         {
             let sh = sh.clone();
             move |b| {
+                sh.tick("observability_cb");
                 sh.obs_changes.borrow_mut().push(b);
                 if let Some(o) = sh.probe.borrow().as_ref().and_then(|w| w.upgrade()) {
                     sh.probe_reads.set(sh.probe_reads.get() + 1);
@@ -191,6 +227,7 @@ fn inner(seed: u64, actions: &mut Vec<String>, stats: &mut (bool, u64, u64)) -> 
         let e_w = e_w.clone();
         let order = Cell::new(seed);
         move |_, _, _| {
+            sh.tick("child_fn");
             let desired = sh.desired.borrow().clone();
             let mut slots: Vec<usize> = (0..SLOTS).collect();
             // visit the slots in a varying order, so that removals hit first/middle/last positions
@@ -243,6 +280,7 @@ fn inner(seed: u64, actions: &mut Vec<String>, stats: &mut (bool, u64, u64)) -> 
                         }
                         let sh3 = sh.clone();
                         let dep = e_w.add_dependency_with(&n, move |v| {
+                            sh3.tick("edge_callback");
                             sh3.callbacks.set(sh3.callbacks.get() + 1);
                             sh3.shadow.borrow_mut()[id] = Some(*v);
                         });
@@ -367,7 +405,47 @@ fn inner(seed: u64, actions: &mut Vec<String>, stats: &mut (bool, u64, u64)) -> 
                 *sh.expected.borrow_mut() = exp.clone();
                 sh.recomputes_this_round.set(0);
                 let observed_before = e_obs.is_some();
+                let ticks_before = sh.ticks.get();
+                if let Some((fr, off)) = fault {
+                    if fr == round {
+                        sh.panic_at.set(Some(ticks_before + off));
+                        let r = catch_unwind(AssertUnwindSafe(|| st.stabilise()));
+                        sh.panic_at.set(None);
+                        let Err(e) = r else { return Err("FAULT-NOT-REACHED".into()) };
+                        if e.downcast_ref::<Injected>().is_none() {
+                            return Err(format!("[C04] stabilise panicked on its own: {}", crate::panic_message(e)));
+                        }
+                        let kind = sh.last_kind.get();
+                        // reads fail, a further stabilise refuses, everything can be dropped
+                        let mut reads: Vec<(String, Result<i64, ObserverError>)> = vec![("join".into(), join_obs.try_get_value())];
+                        if let Some(o) = &e_obs {
+                            reads.push(("expert".into(), o.try_get_value()));
+                        }
+                        if let Some(o) = &above_obs {
+                            reads.push(("above".into(), o.try_get_value()));
+                        }
+                        for (i, o) in keep_binds.iter().enumerate() {
+                            reads.push((format!("bind{i}"), o.try_get_value()));
+                        }
+                        for (name, r) in &reads {
+                            if let Ok(v) = r {
+                                return Err(format!("[C13] after a panic in a {kind} escaped stabilise, observer {name} still returns {v}"));
+                            }
+                        }
+                        let t2 = sh.ticks.get();
+                        if catch_unwind(AssertUnwindSafe(|| st.stabilise())).is_ok() {
+                            return Err(format!("[C13] after a panic in a {kind} escaped stabilise, a further stabilise returned normally"));
+                        }
+                        if sh.ticks.get() != t2 {
+                            return Err(format!("[C13] after a panic in a {kind} escaped stabilise, a further stabilise ran user functions"));
+                        }
+                        sh.current.borrow_mut().clear();
+                        sh.inner.borrow_mut().clear();
+                        return Err(format!("FAULT-OK {kind}"));
+                    }
+                }
                 st.stabilise();
+                rounds.push((round, sh.ticks.get() - ticks_before));
                 actions.push(format!("stabilise#{round} (recomputes={})", sh.recomputes_this_round.get()));
                 stats.1 += sh.recomputes_this_round.get() as u64;
                 if let Some(p) = sh.problems.borrow().first() {
@@ -474,4 +552,83 @@ pub fn run(seed: u64, shard: u64, count: u64) -> J {
         ("violations", J::Arr(violations)),
         ("samples", J::Arr(samples)),
     ])
+}
+
+/// C13 on expert constructions: a panic injected at every user-function invocation (expert
+/// recompute, edge callback, the child function that rewires dependencies, observability callback,
+/// bind closure, map) of the last stabilise that ran any.
+pub fn run_faults(seed: u64, shard: u64, count: u64, progress: Option<&str>) -> J {
+    let (mut points, mut inside) = (0u64, 0u64);
+    let mut kinds: std::collections::BTreeMap<String, u64> = Default::default();
+    let mut violations = vec![];
+    let mut samples = vec![];
+    for i in 0..count {
+        let hseed = mix(mix(seed, shard), i);
+        let mut actions = vec![];
+        let mut stats = (false, 0, 0);
+        let mut rounds = vec![];
+        let clean = catch_unwind(AssertUnwindSafe(|| inner(hseed, &mut actions, &mut stats, None, &mut rounds)));
+        if !matches!(clean, Ok(Ok(()))) {
+            continue;
+        }
+        let Some((round, n)) = rounds.iter().rev().find(|r| r.1 > 0).copied() else { continue };
+        for off in 0..n.min(60) {
+            if let Some(p) = progress {
+                let _ = std::fs::write(p, format!("expert {i} {hseed} {round} {off}\n"));
+            }
+            let mut a2 = vec![];
+            let mut s2 = (false, 0, 0);
+            let mut r2 = vec![];
+            let r = catch_unwind(AssertUnwindSafe(|| inner(hseed, &mut a2, &mut s2, Some((round, off)), &mut r2)));
+            let msg = match r {
+                Ok(Ok(())) => continue,
+                Ok(Err(m)) => m,
+                Err(e) => format!("[C13] dropping the handles after the escaped panic panicked again: {}", crate::panic_message(e)),
+            };
+            if msg == "FAULT-NOT-REACHED" {
+                continue;
+            }
+            points += 1;
+            if let Some(k) = msg.strip_prefix("FAULT-OK ") {
+                *kinds.entry(format!("crash_in_{k}")).or_default() += 1;
+                if off > 0 && off + 1 < n {
+                    inside += 1;
+                }
+                if samples.is_empty() && off > 0 {
+                    samples.push(J::obj(vec![("history_seed", J::s(hseed.to_string())), ("stabilise", J::Int(round as i64)), ("invocations", J::Int(n as i64)), ("panic_at", J::Int(off as i64)), ("kind", J::s(k))]));
+                }
+                continue;
+            }
+            if violations.len() < 10 {
+                let prop = if msg.starts_with("[C04]") { "C04" } else { "C13" };
+                violations.push(J::obj(vec![
+                    ("property", J::s(prop)),
+                    ("message", J::s(format!("expert workload, panic injected at invocation {off} of stabilise #{round}: {msg}; history {:?}", actions))),
+                    ("argv", J::Arr(vec![J::s("expert-fault-one"), J::s(hseed.to_string()), J::s(round.to_string()), J::s(off.to_string())])),
+                ]));
+            }
+        }
+    }
+    let mut st: Vec<(String, J)> = kinds.into_iter().map(|(k, v)| (k, J::Int(v as i64))).collect();
+    st.push(("crash_points_strictly_inside_propagation".into(), J::Int(inside as i64)));
+    J::obj(vec![
+        ("workload", J::s("expert-faults")),
+        ("evaluations", J::Int(points as i64)),
+        ("nontrivial", J::Int(inside as i64)),
+        ("stats", J::Obj(st)),
+        ("violations", J::Arr(violations)),
+        ("samples", J::Arr(samples)),
+    ])
+}
+
+pub fn fault_one(seed: u64, round: u32, off: u64) -> Option<String> {
+    let mut a = vec![];
+    let mut s = (false, 0, 0);
+    let mut r = vec![];
+    match catch_unwind(AssertUnwindSafe(|| inner(seed, &mut a, &mut s, Some((round, off)), &mut r))) {
+        Ok(Ok(())) => None,
+        Ok(Err(m)) if m.starts_with("FAULT-") => None,
+        Ok(Err(m)) => Some(m),
+        Err(e) => Some(format!("[C13] dropping the handles after the escaped panic panicked again: {}", crate::panic_message(e))),
+    }
 }
